@@ -25,6 +25,7 @@ func init() {
 			"F10 a split that is submitted again stores a fresh chunk list first (while doChunks builds the list only when it is empty). " +
 			"Round 6: F11 a decode of _stage_defs into the pointer Fork.stageDefs is followed by a nil test; F12 preloaded chunks can reach verifyDef before they are stepped; F13 (= R7b) orphaned local nodes are reset at re-attach. " +
 			"F14 a non-zero time is stored into Metadata.notRunningSince only under IsZero() of that field (the first observation stands). " +
+			"F15 every non-error return of Node.refreshState has passed the endRefresh pass; F16 in doJoin the chunk's outs are parsed before they are copied to the join. " +
 			"NOT decided: error text naming the stage, retry classification, the Python adapter.",
 		Assumptions: commonAssumptions,
 	}
@@ -45,6 +46,8 @@ func runC06(c *an.Ctx) {
 	ruleF12(c)
 	ruleOrphanReset(c, "F13")
 	ruleF14(c)
+	ruleF15(c)
+	ruleF16(c)
 }
 
 func existsCallOf(p *an.Prog, v ssa.Value, file string) bool {
